@@ -568,7 +568,7 @@ func checkTrace(top []*Route, S []byte, rec *hmods.ConnRec, flavor string, serve
 			add("R4 stream-not-intact", "terminal handler %s read %q but the rest of the client's stream is %q", sinkName, got, S[sinkStart:])
 		}
 	}
-	if fbStart >= 0 && flavor == "route" {
+	if fbStart >= 0 && (flavor == "route" || flavor == "wrapper") {
 		if got := rec.Stream("fb"); !bytes.Equal(got, S[fbStart:]) {
 			add("R5 fallback-stream-not-intact", "fallback read %q but the rest of the client's stream is %q", got, S[fbStart:])
 		}
@@ -597,7 +597,7 @@ func checkTrace(top []*Route, S []byte, rec *hmods.ConnRec, flavor string, serve
 				break
 			}
 			switch {
-			case allNo && (name != "T" || flavor == "route"):
+			case allNo && (name != "T" || flavor == "route" || flavor == "wrapper"):
 				add("R5 fallback-never-ran", "every remaining route of level %s is decided as not matching on %q (routes after %d) but its fallback never received the connection", name, P, ls.lastRun)
 			case firstYes >= 0:
 				add("R6 first-match-never-ran", "route %d of level %s certainly matches %q and every earlier remaining route is rejected, yet no handler ran before the connection was dropped", firstYes, name, P)
@@ -618,14 +618,14 @@ func checkTrace(top []*Route, S []byte, rec *hmods.ConnRec, flavor string, serve
 				}
 				break
 			}
-			if allNo && flavor == "route" {
+			if allNo && (flavor == "route" || flavor == "wrapper") {
 				add("R5 fallback-never-ran", "every route is decided as not matching on %q but the fallback never received the connection", S)
 			} else if firstYes >= 0 {
 				add("R6 first-match-never-ran", "route %d certainly matches %q and every earlier route is rejected, yet nothing ran", firstYes, S)
 			}
 		}
 	}
-	if flavor == "app" && !serverClosed {
+	if (flavor == "app" || flavor == "wrapper") && !serverClosed {
 		add("R5 not-closed", "the server did not close the connection after routing finished")
 	}
 	return out
